@@ -156,6 +156,9 @@ class Plane:
         return Plane(
             reference_point=np.around(self.reference_point, position_decimals),
             normal=np.around(self.normal, direction_decimals),
+            # A normal rounded to this many decimals is only unit length to
+            # this many decimals.
+            direction_decimals=direction_decimals,
         )
 
     def serialize(self, position_decimals=None, direction_decimals=None):
